@@ -17,4 +17,5 @@ EXTRAS = [
     lambda rep, fb, tier: st.rule_axis(rep, fb, methods=("rpad", "rpad_and_clip"), floor=70),
     lambda rep, fb, tier: guards.rule_const_subscript(rep, fb),
     lambda rep, fb, tier: origin.rule_origin(rep, fb),
+    lambda rep, fb, tier: __import__("vf.rules.canon", fromlist=["x"]).rule_canon(rep, fb),
 ]
